@@ -7,6 +7,7 @@ from __future__ import annotations
 import contextlib
 import importlib
 import io
+import os
 import itertools
 import sys
 from typing import Any, Callable, Dict, List, Optional, Tuple
@@ -410,13 +411,77 @@ def run(ctx: Ctx) -> Result:
         return res
 
     res = run_shards(ctx, shard, list(range(nshards)))
+    res.merge(cli_differential(ctx))
+    res.obligations.setdefault("cli-run-differential", False)
     for kind in ("LST", "DCT", "SET", "TUP", "GA", "GAR"):
         res.obligations.setdefault(f"hooks-fire:{kind}", False)
     res.bounds.update({"tripwire_kinds": 16, "positions": len(POSITIONS), "fault_sets": len(fault_sets()), "exits": 2, "profilers": 2})
     return res
 
 
+CLI_PROG = '''
+import os
+import pickle
+import sys
+
+
+class Rec:
+    def __init__(self, v):
+        self.v = v
+
+
+def work(x):
+    return [x]
+
+
+print("name", __name__)
+print("argv0", os.path.basename(sys.argv[0]), sys.argv[1:])
+print("main-is-me", sys.modules["__main__"].__dict__.get("work") is work)
+print("pickled", pickle.loads(pickle.dumps(Rec(3))).v)
+print("work", work(1), file=sys.stderr if "--to-stderr" in sys.argv else sys.stdout)
+if "--fail" in sys.argv:
+    raise SystemExit(3)
+'''
+
+
+def cli_differential(ctx: Ctx) -> Result:
+    """The program as the interpreter runs it (`python prog.py args`, `python -m prog args`) against the same program under
+    `monkeytype run` / `monkeytype run -m`, in fresh interpreters: same standard output, same exit status."""
+    import subprocess
+
+    res = Result()
+    d = ctx.tmp / "c03cli"
+    d.mkdir(exist_ok=True)
+    name = f"c03prog_{ctx.seed}"
+    (d / f"{name}.py").write_text(CLI_PROG)
+    env = dict(os.environ)
+    env["PYTHONPATH"] = str(d) + os.pathsep + env.get("PYTHONPATH", "")
+    py = [sys.executable, "-W", "ignore"]
+    for style in ("script", "module"):
+        for args in (["a", "b"], ["--fail"], []):
+            plain = py + ([f"{name}.py"] if style == "script" else ["-m", name]) + args
+            traced = py + ["-m", "monkeytype", "run"] + ([f"{name}.py"] if style == "script" else ["-m", name]) + args
+            a = subprocess.run(plain, cwd=str(d), env=env, capture_output=True, text=True)
+            b = subprocess.run(traced, cwd=str(d), env=env, capture_output=True, text=True)
+            res.states += 1
+            res.evaluations += 1
+            res.validated += 1
+            res.transitions += 2
+            res.nontrivial_n += 1
+            case = {"kind": "CLI", "pos": style, "faults": args, "raise": False, "profiler": False, "cli": True}
+            if "name __main__" not in a.stdout:
+                raise HarnessError(f"baseline program did not run: {a.stdout!r} {a.stderr[-300:]!r}")
+            if a.stdout != b.stdout:
+                res.violate(Violation(ID, "stdout-differs", f"cli-run:{style}", case, f"`{' '.join(plain[3:])}` prints {a.stdout!r}; under `monkeytype run{' -m' if style == 'module' else ''}` it prints {b.stdout!r} (stderr tail {b.stderr[-200:]!r})"))
+            if a.returncode != b.returncode:
+                res.violate(Violation(ID, "exception-differs", f"cli-run:{style}", case, f"exit status {a.returncode} untraced, {b.returncode} under monkeytype run (stderr tail {b.stderr[-200:]!r})"))
+    res.oblige("cli-run-differential", True)
+    return res
+
+
 def replay(case: Dict[str, Any], ctx: Ctx) -> List[Violation]:
+    if case.get("cli"):
+        return cli_differential(ctx).violations
     M, T, files = load(ctx)
     probs = paired(M, T, files, case["kind"], case["pos"], tuple(case["faults"]), case["raise"], case["profiler"], case.get("sample_rate"))
     return [Violation(ID, k, sig, case, msg) for k, sig, msg in probs]
